@@ -34,7 +34,9 @@ META = dict(
         'exclude geo for <= 2): parameter settings none, tsize, csize, '
         'gratio, tsize+csize, gratio+csize symbolic; 4 admitted geos: none, '
         'tsize, gratio; recount histories on 2..3 geos',
-        thorough='1..4 admitted geos with every setting incl. tsize+csize+gratio; 5 admitted geos with single settings'),
+        thorough='1..4 admitted geos with every single / paired setting, '
+        'tsize+csize+gratio for <= 3 geos; 5 admitted geos with single '
+        'settings'),
     outside='more than 6 admitted geos; the response panel is a fixed flat '
     'family (the count does not depend on it)',
     stubs=['pandas.core.nanops._ensure_numeric pass-through'],
@@ -256,6 +258,8 @@ def jobs(tier, seed):
         continue          # the other settings on 4 admitted geos: thorough
       if tier == 'thorough' and n >= 5 and len(sym) > 1:
         continue
+      if n >= 4 and len(sym) > 2:
+        continue   # three symbolic settings on 4 geos: over the job budget
       firsts = _firsts(n) if n >= 3 else [None]
       for f in firsts:
         name = 'N%d-%s%s' % (n, '+'.join(sym) or 'none',
